@@ -393,6 +393,13 @@ func ruleR2MangleUnique(c *Ctx) []Obligation {
 			})
 			if used {
 				ob3.Status, ob3.Detail = Discharged, us[0]+" formats the value it read from the counter map into the name it returns"
+				// path-exact: every name the helper hands out carries the number
+				if bad, n, ok := r6emNameCarriesCounter(c, fd, info, f, cnt); ok && len(bad) > 0 {
+					ob3.Status = Violated
+					ob3.Detail = fmt.Sprintf("%s returns a name that does not contain the number taken from the counter on %d of %d returning path(s): %s. Two registrations of the same source name on such a path get the SAME mangled name: renameVariables gives them one frame slot (a nested construct overwrites the outer one's variable), relocateLabels keeps only the last definition of a repeated label", us[0], len(bad), n, strings.Join(bad, " | "))
+				} else if ok {
+					ob3.Detail += fmt.Sprintf(" (on all %d returning path(s))", n)
+				}
 			} else {
 				ob3.Status, ob3.Detail = Violated, us[0]+" updates the counter but no fmt.Sprint* call in it receives the value read from the map: successive names for the same source identifier are identical"
 			}
